@@ -347,6 +347,13 @@ fn value_to_json(v: Value) -> JsonValue {
         Value::Null => JsonValue::Null,
         Value::Bool(b) => json!(b),
         Value::Int(i) => json!(i),
+        // JSON has no NaN / Infinity; `json!(f)` would turn them into null, which the caller cannot
+        // tell apart from a Cypher null. Non-finite floats travel as a typed object, like the other
+        // values JSON cannot express.
+        Value::Float(f) if !f.is_finite() => json!({
+            "type": "float",
+            "value": if f.is_nan() { "NaN" } else if f > 0.0 { "Infinity" } else { "-Infinity" },
+        }),
         Value::Float(f) => json!(f),
         Value::String(s) => json!(s),
         Value::DateTime(ts) => json!({ "type": "datetime", "value": ts }),
